@@ -172,6 +172,30 @@ func nilCollapsing(v ssa.Value, depth int, seen map[ssa.Value]bool) bool {
 		}
 	case *ssa.Slice:
 		return nilCollapsing(x.X, depth, seen)
+	case *ssa.Parameter:
+		// the payload is handed in (Send(key, val []byte)): what the call sites pass
+		if simC == nil || x.Parent() == nil {
+			return false
+		}
+		pi := -1
+		for i, p := range x.Parent().Params {
+			if p == x {
+				pi = i
+			}
+		}
+		for _, g := range simC.P.allFuncs("memdb", "server", "resp") {
+			for _, b := range g.Blocks {
+				for _, in := range b.Instrs {
+					ci, ok := in.(ssa.CallInstruction)
+					if !ok || callee(ci) != x.Parent() || pi < 0 || pi >= len(ci.Common().Args) {
+						continue
+					}
+					if nilCollapsing(ci.Common().Args[pi], depth+1, seen) {
+						return true
+					}
+				}
+			}
+		}
 	case *ssa.Phi:
 		for _, e := range x.Edges {
 			if nilCollapsing(e, depth, seen) {
@@ -180,7 +204,31 @@ func nilCollapsing(v ssa.Value, depth int, seen map[ssa.Value]bool) bool {
 		}
 	case *ssa.ChangeType:
 		return nilCollapsing(x.X, depth, seen)
+	case *ssa.TypeAssert:
+		return nilCollapsing(x.X, depth, seen)
+	case *ssa.MakeInterface:
+		return nilCollapsing(x.X, depth, seen)
+	case *ssa.Extract:
+		if ta, ok := x.Tuple.(*ssa.TypeAssert); ok && x.Index == 0 {
+			return nilCollapsing(ta.X, depth, seen)
+		}
 	case *ssa.UnOp:
+		// a field of a record built in this function (msg := &ChanMsg{val: payload}; ... msg.val.([]byte)): what was stored
+		if fa, ok := x.X.(*ssa.FieldAddr); ok && x.Op == token.MUL {
+			if al, ok := fa.X.(*ssa.Alloc); ok && al.Referrers() != nil {
+				for _, r := range *al.Referrers() {
+					fa2, ok := r.(*ssa.FieldAddr)
+					if !ok || fa2.Field != fa.Field || fa2.Referrers() == nil {
+						continue
+					}
+					for _, rr := range *fa2.Referrers() {
+						if st, ok := rr.(*ssa.Store); ok && st.Addr == ssa.Value(fa2) && nilCollapsing(st.Val, depth, seen) {
+							return true
+						}
+					}
+				}
+			}
+		}
 		// an element of a slice this function collected (vals = append(vals, copyOf(arg)); ...; db.Set(k, vals[i])):
 		// what was put into the slice
 		if ia, ok := x.X.(*ssa.IndexAddr); ok && x.Op == token.MUL {
